@@ -852,6 +852,27 @@ def binding_lookup_obligations(chk):
     chk.add(Ob("typelib.py.inspection.cached_signature", "is-the-memoised-signature-function", "structural", [], z3.BoolVal(ok)))
 
 
+def binding_init_obligations(chk):
+    """AbstractBinding.__init__ stores each of its arguments under the like-named attribute, unchanged: this is what turns the
+    builder's exit clauses (statements about the constructor *arguments*) into the class invariant the binder proofs assume
+    (statements about the *attributes*)."""
+    I = make_interp()
+    func = f"{MOD}.AbstractBinding.__init__"
+    names = ("signature", "binding", "varkwd", "varpos", "startpos")
+
+    def mk(I, path):
+        cv = I.mods.resolve(MOD, "AbstractBinding")
+        slf = Obj(cv, {})
+        slf.sym_fields = None
+        vals = {n: SV(path.fresh(n)) for n in names}
+        return [slf], dict(vals), {"self": slf, "vals": vals}
+    for pi, (path, out, obls, writes, cur) in enumerate(I.run_function(func, mk)):
+        f = cur["self"].fields
+        ok = out.kind in ("ret", "end") and set(f) == set(names) and all(f[n] is cur["vals"][n] for n in names)
+        chk.add(Ob(func, "stores-each-argument-under-the-like-named-attribute-unchanged", f"p{pi}", path.hyps, z3.BoolVal(bool(ok)),
+                   {"attributes": sorted(f)}))
+
+
 def bind_obligations(chk):
     """bind(obj) == BoundRoutine(call=obj, binding=_get_binding(obj))."""
     from pyvc.env import _MISSING
